@@ -155,6 +155,7 @@ proof fn lemma_a1_small_range(s: Seq<u8>, nl: int)
     // TRUSTED: discharged only up to the bounds of the Kani harnesses kani/xlsxf (row < 100 x col = 27; every col < 16384 x row = 7).
     // The precondition is the no-overflow condition of `cell.0 + 1`; kani/xlsxf/coordinate_to_name_total exhibits the panic without it.
     requires
+        //# C06.row_plus_one_fits
         cell.0 < u32::MAX,
     ensures
         //# C15.name_err_iff_col_out_of_range
@@ -342,6 +343,104 @@ pub open spec fn single_state(sb: Seq<u8>, p: int, nl: int, m: int, k: int, res:
     else { res == sb.subrange(0, p) && cell == sb.subrange(p, k) && is_cell_row }
 }
 
+
+// ---- facts about the scanner on a single-reference formula (pure sequence reasoning; the code is not mentioned)
+proof fn lemma_single_char_class(sb: Seq<u8>, p: int, nl: int, m: int, nd: int, j: int)
+    requires single_ref(sb, p, nl, m, nd), 0 <= j < sb.len(),
+    ensures
+        j < p ==> sb[j] == 0x24,
+        p <= j < p + nl ==> is_upper(sb[j]),
+        j == p + nl && m == 1 ==> sb[j] == 0x24,
+        j >= p + nl + m ==> is_digit(sb[j]),
+{
+    if p <= j < p + nl { assert(is_upper(sb.subrange(p, p + nl)[j - p])); }
+    if j >= p + nl + m { assert(is_digit(sb.subrange(p + nl + m, sb.len() as int)[j - (p + nl + m)])); }
+}
+proof fn lemma_step_letter(sb: Seq<u8>, p: int, nl: int, m: int, nd: int, j: int, res0: Seq<u8>, cell0: Seq<u8>, icr0: bool)
+    requires single_ref(sb, p, nl, m, nd), 0 <= j < sb.len(), single_state(sb, p, nl, m, j, res0, cell0, icr0), is_letter(sb[j]),
+    ensures !icr0, single_state(sb, p, nl, m, j + 1, res0, cell0.push(sb[j]), false),
+{
+    lemma_single_char_class(sb, p, nl, m, nd, j);
+    assert(p <= j < p + nl);
+    if j == p { assert(cell0 =~= sb.subrange(p, j)); }
+    assert(sb.subrange(p, j + 1) =~= sb.subrange(p, j).push(sb[j]));
+}
+proof fn lemma_step_digit(sb: Seq<u8>, p: int, nl: int, m: int, nd: int, j: int, res0: Seq<u8>, cell0: Seq<u8>, icr0: bool)
+    requires single_ref(sb, p, nl, m, nd), 0 <= j < sb.len(), single_state(sb, p, nl, m, j, res0, cell0, icr0), is_digit(sb[j]),
+    ensures single_state(sb, p, nl, m, j + 1, res0, cell0.push(sb[j]), true),
+{
+    lemma_single_char_class(sb, p, nl, m, nd, j);
+    assert(j >= p + nl + m);
+    if m == 1 {
+        assert(sb.subrange(p + nl + 1, j + 1) =~= sb.subrange(p + nl + 1, j).push(sb[j]));
+    } else {
+        assert(sb.subrange(p, j + 1) =~= sb.subrange(p, j).push(sb[j]));
+    }
+}
+/// a `$` (the only other char of a single reference) meets a pending cell that is either empty or letters only: neither is a cell name
+proof fn lemma_step_dollar(sb: Seq<u8>, p: int, nl: int, m: int, nd: int, j: int, res0: Seq<u8>, cell0: Seq<u8>, icr0: bool)
+    requires single_ref(sb, p, nl, m, nd), 0 <= j < sb.len(), single_state(sb, p, nl, m, j, res0, cell0, icr0), !is_letter(sb[j]), !is_digit(sb[j]),
+    ensures
+        sb[j] == 0x24,
+        a1_small(cell0, cell0.len() as int), dec10(cell0.subrange(cell0.len() as int, cell0.len() as int)) == 0,
+        single_state(sb, p, nl, m, j + 1, (res0 + cell0).push(0x24), Seq::<u8>::empty(), false),
+{
+    lemma_single_char_class(sb, p, nl, m, nd, j);
+    assert(cell0.subrange(cell0.len() as int, cell0.len() as int) =~= Seq::<u8>::empty());
+    if j < p {
+        assert(cell0 =~= Seq::<u8>::empty());
+        assert((res0 + cell0).push(0x24) =~= sb.subrange(0, 1));
+    } else {
+        assert(j == p + nl && m == 1);
+        assert(cell0 == sb.subrange(p, p + nl));
+        assert(cell0.subrange(0, cell0.len() as int) =~= cell0);
+        assert forall|i: int| 0 <= i < cell0.len() implies is_letter(#[trigger] cell0[i]) by { assert(is_upper(cell0[i])); }
+        assert((res0 + cell0).push(0x24) =~= sb.subrange(0, p + nl + 1));
+        assert(sb.subrange(p + nl + 1, p + nl + 1) =~= Seq::<u8>::empty());
+    }
+}
+/// end of a single-reference formula: what is pending
+proof fn lemma_single_final(sb: Seq<u8>, p: int, nl: int, m: int, nd: int, res: Seq<u8>, cell: Seq<u8>, icr: bool)
+    requires single_ref(sb, p, nl, m, nd), single_state(sb, p, nl, m, sb.len() as int, res, cell, icr),
+    ensures
+        cell.len() > 0,
+        m == 1 ==> a1_small(cell, 0) && res + cell == sb,
+        m == 0 ==> a1_small(cell, nl) && res == sb.subrange(0, p)
+            && cell.subrange(0, nl) == sb.subrange(p, p + nl) && cell.subrange(nl, cell.len() as int) == sb.subrange(p + nl, sb.len() as int),
+{
+    let n = sb.len() as int;
+    if m == 1 {
+        assert(cell == sb.subrange(p + nl + 1, n));
+        assert(cell.subrange(0, 0) =~= Seq::<u8>::empty());
+        assert(cell.subrange(0, cell.len() as int) =~= cell);
+        assert(res + cell =~= sb);
+    } else {
+        assert(cell == sb.subrange(p, n));
+        assert(cell.subrange(0, nl) =~= sb.subrange(p, p + nl));
+        assert(cell.subrange(nl, cell.len() as int) =~= sb.subrange(p + nl, n));
+        assert forall|i: int| 0 <= i < nl implies is_letter(#[trigger] cell.subrange(0, nl)[i]) by { assert(is_upper(sb.subrange(p, p + nl)[i])); }
+    }
+}
+/// the A1 name of the moved cell IS the translation of a fully relative single reference
+proof fn lemma_relative_translated(v: Seq<u8>, sb: Seq<u8>, nl: int, nd: int, dr: int, dc: int)
+    requires single_ref(sb, 0, nl, 0, nd), is_name_of(v, single_row(sb, 0, nl, 0) + dr, single_col(sb, 0, nl) + dc),
+    ensures exists|nlo: int| #[trigger] single_translated(v, nlo, sb, 0, nl, 0, dr, dc),
+{
+    let row = single_row(sb, 0, nl, 0) + dr;
+    let col = single_col(sb, 0, nl) + dc;
+    let nlo = choose|nlo: int| name_of(v, nlo, row, col);
+    assert(v.subrange(nlo, v.len() as int)[0] == v[nlo]);
+    assert(single_translated(v, nlo, sb, 0, nl, 0, dr, dc));
+}
+/// a fully absolute single reference is its own translation
+proof fn lemma_absolute_translated(sb: Seq<u8>, nl: int, nd: int, dr: int, dc: int)
+    requires single_ref(sb, 1, nl, 1, nd),
+    ensures single_translated(sb, nl, sb, 1, nl, 1, dr, dc),
+{
+    assert(sb.len() == 1 + nl + 1 + nd);
+    assert(sb[0] == 0x24 && sb[1 + nl] == 0x24);
+}
+
 //@@ fn src/xlsx/mod.rs replace_cell_names props=C15,C06 ret=r
 //@@ sig
     requires
@@ -355,16 +454,22 @@ pub open spec fn single_state(sb: Seq<u8>, p: int, nl: int, m: int, k: int, res:
         forall|p: int, nl: int, m: int, nd: int| all_ascii(s@) && #[trigger] single_ref(lowb(s@), p, nl, m, nd)
             && single_in_sheet(lowb(s@), p, nl, m, offset.0 as int, offset.1 as int) ==>
             r is Ok && all_ascii(r->Ok_0@)
-            && exists|nlo: int| single_translated(lowb(r->Ok_0@), nlo, lowb(s@), p, nl, m, offset.0 as int, offset.1 as int),
+            && exists|nlo: int| #[trigger] single_translated(lowb(r->Ok_0@), nlo, lowb(s@), p, nl, m, offset.0 as int, offset.1 as int),
         //# C15.single_reference_translated_uniform
         forall|p: int, nl: int, m: int, nd: int| all_ascii(s@) && #[trigger] single_ref(lowb(s@), p, nl, m, nd) && p == m
             && single_in_sheet(lowb(s@), p, nl, m, offset.0 as int, offset.1 as int) ==>
             r is Ok && all_ascii(r->Ok_0@)
-            && exists|nlo: int| single_translated(lowb(r->Ok_0@), nlo, lowb(s@), p, nl, m, offset.0 as int, offset.1 as int),
+            && exists|nlo: int| #[trigger] single_translated(lowb(r->Ok_0@), nlo, lowb(s@), p, nl, m, offset.0 as int, offset.1 as int),
 //@@ body
     broadcast use {axiom_iter_items_vec_u8, lemma_bytes_ascii_add, lemma_bytes_ascii_push, lemma_lowb_ascii, lemma_all_ascii_push};
     let ghost sb = lowb(s@);
     let ghost mut k: int = 0;
+//@@ before /for c in s\.chars\(\)/
+    proof {
+        assert(lowb(cell@) =~= Seq::<u8>::empty());
+        assert forall|p: int, nl: int, m: int, nd: int| #[trigger] single_ref(sb, p, nl, m, nd) implies
+            single_state(sb, p, nl, m, 0, res@, lowb(cell@), is_cell_row) by { assert(sb.subrange(0, 0) =~= Seq::<u8>::empty()); }
+    }
 //@@ r6 0
 //@@ loop 0
         invariant
@@ -376,16 +481,92 @@ pub open spec fn single_state(sb: Seq<u8>, p: int, nl: int, m: int, k: int, res:
             sb == lowb(s@),
             all_ascii(s@) ==> forall|p: int, nl: int, m: int, nd: int| #[trigger] single_ref(sb, p, nl, m, nd) ==>
                 !in_quote && single_state(sb, p, nl, m, k, res@, lowb(cell@), is_cell_row),
+        ensures k == s@.len(),
         decreases s@.len() - k,
-//@@ before /if c == '"'/
+//@@ before /if c == /
         broadcast use {axiom_iter_items_vec_u8, lemma_bytes_ascii_add, lemma_bytes_ascii_push, lemma_lowb_ascii, lemma_all_ascii_push};
         let ghost res0 = res@;
         let ghost cell0 = cell@;
         let ghost icr0 = is_cell_row;
         let ghost inq0 = in_quote;
-        proof { k = k + 1; assert(c == s@.skip(k - 1)[0]); assert(c == s@[k - 1]); if all_ascii(s@) { assert(is_ascii_c(s@[k - 1])); } }
+        proof { k = k + 1; assert(c == s@.skip(k - 1)[0]); assert(c == s@[k - 1]); if all_ascii(s@) { assert(is_ascii_c(s@[k - 1])); assert(sb[k - 1] == c as u8); }
+            // on a single-reference formula the current char is `$`, an upper-case letter or a digit: never a quote
+            assert forall|p: int, nl: int, m: int, nd: int| all_ascii(s@) && #[trigger] single_ref(sb, p, nl, m, nd) implies c != '"' by {
+                lemma_single_char_class(sb, p, nl, m, nd, k - 1);
+            }
+        }
+//@@ before /continue;/
+            proof { assert(all_ascii(s@) ==> forall|p: int, nl: int, m: int, nd: int| !#[trigger] single_ref(sb, p, nl, m, nd)); }
+//@@ after /cell\.push\(c\);/#0of2
+            proof {
+                if all_ascii(s@) {
+                    assert forall|p: int, nl: int, m: int, nd: int| #[trigger] single_ref(sb, p, nl, m, nd) implies
+                        !in_quote && single_state(sb, p, nl, m, k, res@, lowb(cell@), is_cell_row) by {
+                        lemma_step_letter(sb, p, nl, m, nd, k - 1, res0, lowb(cell0), icr0);
+                        assert(!icr0);
+                        assert(lowb(cell@) =~= lowb(cell0).push(c as u8));
+                    }
+                }
+            }
+//@@ after /cell\.push\(c\);/#1of2
+            proof {
+                if all_ascii(s@) {
+                    assert(lowb(cell@) =~= lowb(cell0).push(c as u8));
+                    assert forall|p: int, nl: int, m: int, nd: int| #[trigger] single_ref(sb, p, nl, m, nd) implies
+                        !in_quote && single_state(sb, p, nl, m, k, res@, lowb(cell@), is_cell_row) by {
+                        lemma_step_digit(sb, p, nl, m, nd, k - 1, res0, lowb(cell0), icr0);
+                    }
+                }
+            }
+//@@ before /if let Ok\(cell_name\) = /#0of2
+            proof {
+                if all_ascii(s@) {
+                    assert forall|p: int, nl: int, m: int, nd: int| #[trigger] single_ref(sb, p, nl, m, nd) implies
+                        a1_small(lowb(cell0), cell0.len() as int) && dec10(lowb(cell0).subrange(cell0.len() as int, cell0.len() as int)) == 0 by {
+                        lemma_step_dollar(sb, p, nl, m, nd, k - 1, res0, lowb(cell0), icr0);
+                    }
+                }
+            }
+//@@ after /res\.push\(c as u8\);/#1of2
+            proof {
+                if all_ascii(s@) {
+                    assert(lowb(cell@) =~= Seq::<u8>::empty());
+                    assert forall|p: int, nl: int, m: int, nd: int| #[trigger] single_ref(sb, p, nl, m, nd) implies
+                        !in_quote && single_state(sb, p, nl, m, k, res@, lowb(cell@), is_cell_row) by {
+                        lemma_step_dollar(sb, p, nl, m, nd, k - 1, res0, lowb(cell0), icr0);
+                        assert(res@ == (res0 + lowb(cell0)).push(0x24));
+                    }
+                }
+            }
+//@@ before /if !cell\.is_empty\(\)/
+    let ghost res1 = res@;
+    let ghost cell1 = cell@;
+    proof {
+        assert(k == s@.len());
+        if all_ascii(s@) {
+            assert forall|p: int, nl: int, m: int, nd: int| #[trigger] single_ref(sb, p, nl, m, nd) implies
+                cell1.len() > 0 && (m == 1 ==> a1_small(lowb(cell1), 0) && res1 + lowb(cell1) == sb)
+                && (m == 0 ==> plain_ref(cell1, nl) && res1 == sb.subrange(0, p) && ref_row(cell1, nl) == single_row(sb, p, nl, m) && ref_col(cell1, nl) == single_col(sb, p, nl)) by {
+                lemma_single_final(sb, p, nl, m, nd, res1, lowb(cell1), is_cell_row);
+            }
+        }
+    }
+
 //@@ before /match String::from_utf8/
     proof {
+        if all_ascii(s@) {
+            assert forall|p: int, nl: int, m: int, nd: int| #[trigger] single_ref(sb, p, nl, m, nd) && p == m
+                && single_in_sheet(sb, p, nl, m, offset.0 as int, offset.1 as int) implies
+                exists|nlo: int| #[trigger] single_translated(res@, nlo, sb, p, nl, m, offset.0 as int, offset.1 as int) by {
+                if m == 1 {
+                    assert(res@ == sb);
+                    lemma_absolute_translated(sb, nl, nd, offset.0 as int, offset.1 as int);
+                } else {
+                    assert(res1 =~= Seq::<u8>::empty());
+                    lemma_relative_translated(res@, sb, nl, nd, offset.0 as int, offset.1 as int);
+                }
+            }
+        }
         if bytes_ascii(res@) {
             lemma_ascii_roundtrip(res@);
             assert forall|t: Seq<char>| utf8(t) == res@ implies t == as_chars(res@) by { axiom_utf8_injective(t, as_chars(res@)); }
@@ -399,6 +580,25 @@ verif_low_bytes(cell.as_slice())
 verif_low_bytes(cell.as_slice())
 //@@ end
 proof fn witness_replace_cell_names() { assert(offset_small((0i64, 3i64))); }
+/// the single-reference shapes are inhabited: "$B$7" (absolute), "AB12" (relative)
+proof fn witness_single_ref()
+    ensures single_ref(seq![0x24u8, 0x42, 0x24, 0x37], 1, 1, 1, 1), single_ref(seq![0x41u8, 0x42, 0x31, 0x32], 0, 2, 0, 2),
+        single_row(seq![0x41u8, 0x42, 0x31, 0x32], 0, 2, 0) == 11, single_col(seq![0x41u8, 0x42, 0x31, 0x32], 0, 2) == 27,
+{
+    let a = seq![0x24u8, 0x42, 0x24, 0x37];
+    assert(a.subrange(1, 2) =~= seq![0x42u8]);
+    assert(a.subrange(3, 4) =~= seq![0x37u8]);
+    assert(seq![0x37u8].drop_last() =~= Seq::<u8>::empty());
+    let b = seq![0x41u8, 0x42, 0x31, 0x32];
+    assert(b.subrange(0, 2) =~= seq![0x41u8, 0x42]);
+    assert(b.subrange(2, 4) =~= seq![0x31u8, 0x32]);
+    assert(seq![0x31u8, 0x32].drop_last() =~= seq![0x31u8]);
+    assert(seq![0x31u8].drop_last() =~= Seq::<u8>::empty());
+    assert(seq![0x41u8, 0x42].drop_last() =~= seq![0x41u8]);
+    assert(seq![0x41u8].drop_last() =~= Seq::<u8>::empty());
+    reveal_with_fuel(dec10, 4);
+    reveal_with_fuel(b26, 4);
+}
 
 } // verus!
 fn main() {}
